@@ -141,8 +141,24 @@ def checkNamesAndBuild (env : Env) (eng : Engine) (m : MethodEntry) (src dst : P
   | some n => .error [s!"{m.decl.pos}: the name {n} would be declared twice in the generated function"]
   | none => buildFunction env eng m src dst additional srcVar dstVar argVars
 
-/-- `CreateFunction` -/
-def createFunction (env : Env) (eng : Engine) (m : MethodEntry) : Outcome Built :=
+/-- the key under which `FunctionBuilder` remembers a function it has built: the name, in receiver
+style preceded by the receiver's type -/
+def funcKey (env : Env) (m : MethodEntry) : String :=
+  match m.decl.params with
+  | src :: _ => if m.opts.receiver != "" then env.typeNameF (env.derefPtr src.ty) ++ "." ++ m.decl.name else m.decl.name
+  | [] => m.decl.name
+
+/-- in receiver style the method must not collide with a field or method of the receiver type (the
+package-level check is the parser's); no function may be asked for twice -/
+def collision (env : Env) (m : MethodEntry) (src : ParamVar) (built : List String) : Option String :=
+  if m.opts.receiver != "" && (match env.lookup src.ty m.decl.name with | .none => false | _ => true) then
+    some s!"{m.decl.pos}: the receiver type already has a field or method {m.decl.name}"
+  else if built.contains (funcKey env m) then
+    some s!"{m.decl.pos}: {m.decl.name} is generated twice"
+  else none
+
+/-- `CreateFunction`; `built` are the keys of the functions built earlier in the run -/
+def createFunction (env : Env) (eng : Engine) (m : MethodEntry) (built : List String := []) : Outcome Built :=
   match m.decl.params, m.decl.results with
   | src :: additional, dst :: _ =>
     let err (pos msg : String) : Outcome Built := .error [s!"{pos}: {msg}"]
@@ -167,6 +183,9 @@ def createFunction (env : Env) (eng : Engine) (m : MethodEntry) : Outcome Built 
     if m.opts.receiver != "" && srcVar.external then
       err m.decl.pos "an external package type cannot be a receiver" else
     let srcVar := if m.opts.receiver != "" then { srcVar with name := m.opts.receiver } else srcVar
+    match collision env m src built with
+    | some msg => .error [msg]
+    | none =>
     checkNamesAndBuild env eng m src dst additional srcVar dstVar argVars
   | _, _ => .panic "createFunction: method without parameter or result"
 
